@@ -132,16 +132,23 @@ def expectedOf (m : KMount) : Expected :=
       lastVal b!"workdir" m.super⟩
   else ⟨m.mp, m.fstype, m.opts, [], [], []⟩
 
-/-- bind-source candidates of mount `m` within table `t` -/
+/-- source candidates of mount `m` within table `t` (after fix 23c682d): the lower directory
+    of an overlay; the device's first mount source if `m` shows the root of the file system;
+    the mounted directory as it is visible through every mount of the same file system that
+    shows its root, then through every mount that shows the mounted directory or a directory
+    above it (a bind-mounted subdirectory, a subvolume); `m`'s own mountpoint excepted -/
 def expectedSources (t : List KMount) (m : KMount) : List Bytes :=
-  if m.fstype = b!"overlay" ∧ (lastVal b!"lowerdir" m.super).length > 0 then
-    [lastVal b!"lowerdir" m.super]
-  else
-    let devName := match t.find? (·.dev == m.dev) with
-      | some d => d.source
-      | none => []
-    let roots := (t.filter (fun x => x.dev == m.dev && x.root == [47])).map (·.mp)
-    let (first, root) := if m.root = [47] then ([devName], ([] : Bytes)) else ([], m.root)
-    first ++ (roots.map fun mp => pathJoin [mp, root]).filter (· != m.mp)
+  let lower := if m.fstype = b!"overlay" ∧ (lastVal b!"lowerdir" m.super).length > 0 then
+      [lastVal b!"lowerdir" m.super] else []
+  let devName := match t.find? (·.dev == m.dev) with
+    | some d => d.source
+    | none => []
+  let roots := (t.filter (fun x => x.dev == m.dev && x.root == [47])).map (·.mp)
+  -- (directory shown, mountpoint) of the mounts showing part of the file system
+  let subs := (t.filter (fun x => x.dev == m.dev && x.root != [47])).map fun x => (x.root, x.mp)
+  lower ++ (if m.root = [47] then [devName] else [])
+    ++ (roots.map fun mp => pathJoin [mp, m.root]).filter (· != m.mp)
+    ++ ((subs.filter fun s => m.root == s.1 || hasPrefix m.root (s.1 ++ [47])).map
+          fun s => pathJoin [s.2, m.root.drop s.1.length]).filter (· != m.mp)
 
 end Lc.Spec
